@@ -366,5 +366,43 @@ theorem serializedHistory_eq (spec : SeqSpec S Op Ret) (T : SCTester S Op Ret) (
     rw [e1, e2]
     rfl
 
+/-! ### consequences for the literal tester -/
+theorem sorted_step (T : SCTester S Op Ret) (h : Sorted T.hist ∧ Sorted T.inflight) (e : Event Op Ret) :
+    Sorted (step T e).1.hist ∧ Sorted (step T e).1.inflight := by
+  cases e with
+  | inv t op =>
+    simp only [step, onInvoke]
+    split
+    · exact h
+    · split
+      · exact h
+      · exact ⟨sorted_orInsert h.1, sorted_upsert h.2⟩
+  | ret t r =>
+    simp only [step, onReturn]
+    split
+    · exact h
+    · split
+      · exact ⟨sorted_orInsert h.1, h.2⟩
+      · exact ⟨sorted_upsert h.1, sorted_erase h.2⟩
+
+theorem sorted_record (s0 : S) (es : List (Event Op Ret)) :
+    Sorted (record s0 es).hist ∧ Sorted (record s0 es).inflight := by
+  induction es using snoc_induction with
+  | nil => exact ⟨sorted_nil, sorted_nil⟩
+  | snoc es e ih =>
+    have : record s0 (es ++ [e]) = (step (record s0 es) e).1 := by simp [record, List.foldl_append]
+    rw [this]; exact sorted_step _ ih e
+
+theorem serializedHistory_record (spec : SeqSpec S Op Ret) (s0 : S) (es : List (Event Op Ret)) :
+    serializedHistory spec (record s0 es) = Tester.serializedHistory spec (Tester.record false s0 es) := by
+  rw [serializedHistory_eq spec _ (sorted_record s0 es).1 (sorted_record s0 es).2, embed_record]
+
+theorem results_record (s0 : S) (es : List (Event Op Ret)) :
+    results (SCTester.new s0) es = Tester.results false (Tester.new s0) es := by
+  rw [results_eq, embed_new]
+
+theorem len_record_eq (s0 : S) (es : List (Event Op Ret)) : (record s0 es).len = (Tester.record false s0 es).len := by
+  rw [← embed_record, len_embed]
+
 end SCTester
 end SR.Sem
